@@ -162,7 +162,7 @@ func (it *iter) step(op byte) error {
 var baseGoroutines int
 
 func goroutinesBack() (int, bool) {
-	deadline := time.Now().Add(2 * time.Second)
+	deadline := time.Now().Add(10 * time.Second)
 	for {
 		n := runtime.NumGoroutine()
 		if n <= baseGoroutines || baseGoroutines == 0 {
@@ -178,7 +178,7 @@ func goroutinesBack() (int, bool) {
 // outputSettles waits for the output to reach want (the writer is another goroutine) and then
 // checks it does not grow further.
 func outputSettles(out *syncBuf, want int) error {
-	deadline := time.Now().Add(2 * time.Second)
+	deadline := time.Now().Add(10 * time.Second)
 	for out.Len() < want && time.Now().Before(deadline) {
 		time.Sleep(50 * time.Microsecond)
 	}
@@ -249,7 +249,7 @@ func check(c Case) error {
 		return fmt.Errorf("after the final Close: %v", err)
 	}
 	if n, ok := goroutinesBack(); !ok {
-		return fmt.Errorf("%d goroutines are still alive 2 s after Close (%d before the history): the query goroutine did not terminate", n, baseGoroutines)
+		return fmt.Errorf("%d goroutines are still alive 10 s after Close (%d before the history): the query goroutine did not terminate", n, baseGoroutines)
 	}
 	return nil
 }
@@ -280,7 +280,7 @@ func TestProp(t *testing.T) {
 	r := h.Start(t, "C12")
 	defer r.Finish(t)
 	maxLen := r.Pick(5, 7)
-	r.Rule(fmt.Sprintf("all call histories over {Next, Scan, Err, Close} up to length %d (4^n for each n) x 9 query kinds (0, 1, 2, 3 answers; an error after 0, 1, 2 answers; two infinite queries), enumerated completely; plus rapid-sampled pairs of histories on two Solutions of one interpreter merged in a generated interleaving. Every query writes one character per solution, so the output counts the goals that ran. Oracle: a model (answers delivered, ended, failed, closed): Next true exactly for answers 1..k in order and false afterwards (after exhaustion, after an error, after Close); Scan after a true Next yields that answer; Err non-nil exactly after the query ended with its error; first Close nil, later ones ErrClosed; after every call the number of goals run equals the number of answers delivered (nothing runs ahead, nothing after Close); after the history and Close the goroutine count returns to its initial value (polled up to 2 s). Every call runs under a %v watchdog: a call that does not return is the violation 'blocked'. Non-trivial: the history makes a call after exhaustion, an error or Close. Distinct by (kind, history).", maxLen, callTimeout),
+	r.Rule(fmt.Sprintf("all call histories over {Next, Scan, Err, Close} up to length %d (4^n for each n) x 9 query kinds (0, 1, 2, 3 answers; an error after 0, 1, 2 answers; two infinite queries), enumerated completely; plus rapid-sampled pairs of histories on two Solutions of one interpreter merged in a generated interleaving. Every query writes one character per solution, so the output counts the goals that ran. Oracle: a model (answers delivered, ended, failed, closed): Next true exactly for answers 1..k in order and false afterwards (after exhaustion, after an error, after Close); Scan after a true Next yields that answer; Err non-nil exactly after the query ended with its error; first Close nil, later ones ErrClosed; after every call the number of goals run equals the number of answers delivered (nothing runs ahead, nothing after Close); after the history and Close the goroutine count returns to its initial value (polled up to 10 s). Every call runs under a %v watchdog: a call that does not return is the violation 'blocked'. Non-trivial: the history makes a call after exhaustion, an error or Close. Distinct by (kind, history).", maxLen, callTimeout),
 		"calls take microseconds; the watchdog is orders of magnitude above scheduling noise", "all calls are made from one goroutine at a time")
 	r.Regress(t)
 	if r.Failed() {
